@@ -11,6 +11,10 @@ NOTES = [
  (r"^<syntax::lexer::GleamLexer as .*>::next/api/TextRange::new/0$", "start and end are the two ends of logos' span(), start <= end"),
  (r"^syntax::(ancestors_at_offset|best_token_at_offset)/api/SyntaxNode::token_at_offset/0$", "asserts offset <= node end: positions handed to the queries lie inside the file (property quantifier); out-of-file positions from the LSP layer are caught by with_catch_unwind (C15/M4)"),
  (r"^syntax::ast::HasDocParts::doc_text::\{closure#0\}/api/Index::index\[str\]/0$", "slices a doc-comment token after its `///` / `////` prefix, whose length is the ASCII prefix just matched by strip_prefix/starts_with"),
+ (r"^<syntax::parser::Nested as core::ops::drop::Drop>::drop/assert/Overflow/0$", "a Nested is built only by Parser::nested, on the accepting edge, after the counter was stored as counter + 1 (C02/P5a nesting-guard); it is dropped once, so the counter is >= 1 when it is taken down again"),
+ (r"^syntax::parser::Parser::nested/assert/Overflow/0$", "the addition is reached only when depth >= MAX_NESTING failed: depth < 128"),
+ (r"^syntax::parser::Parser::can_wrap/assert/Overflow/0$", "depth <= MAX_NESTING (it is counted up only below it) and wraps <= MAX_NESTING (it is counted up only after depth + wraps < MAX_NESTING held): the sum is below 2^9"),
+ (r"^syntax::parser::expr_bp/assert/Overflow/[01]$", "wraps += 1 runs only after Parser::can_wrap(wraps) accepted, i.e. depth + wraps < MAX_NESTING"),
  (r"^syntax::parser::Parse::root/api/Option::unwrap/0$", "the root node kind is SOURCE_FILE: module() finishes its first mark with SOURCE_FILE (C01/L5)"),
  (r"^syntax::parser::Parser::build_tree/api/GreenNodeBuilder::finish", "events are balanced: every Open has its Close (C02/P7 mark linearity) and the popped last Close is re-issued after the final flush (C01/L5, L7)"),
  (r"^syntax::parser::Parser::build_tree/assert/Overflow/0$", "n_trivias + 1 <= number of raw tokens"),
